@@ -194,6 +194,10 @@ func buildEnv(seed uint64, n int) *env {
 		if i%3 == 1 {
 			df = "dflt"
 		}
+		if i%5 == 2 && df == "" {
+			// the same text is also in the corpus with a default field
+			e.inputs = append(e.inputs, input{query: q, df: "dflt"})
+		}
 		in := input{query: q, df: df}
 		if t, err := parse(q, df); err == nil {
 			in.tree = t
@@ -279,6 +283,29 @@ func prepare(seed uint64, corpus int) (*prepared, *report.Failure) {
 	}
 	if f := unchanged(e, "after the sequential runs"); f != nil {
 		return nil, f
+	}
+	// the wrappers are Parse followed by Render / RenderParam of a driver: after all
+	// the calls above they must still agree with that composition made from scratch
+	for i := range e.inputs {
+		in := &e.inputs[i]
+		if strings.HasPrefix(in.query, "\x00") {
+			continue
+		}
+		var want, wantP string
+		if t, err := parse(in.query, in.df); err != nil {
+			want, wantP = " | "+err.Error(), fmt.Sprintf(" | %#v | %s", []any(nil), err.Error())
+		} else {
+			s, rerr := driver.NewPostgresDriver().Render(t)
+			want = s + " | " + errS(rerr)
+			ps, pp, perr := driver.NewPostgresDriver().RenderParam(t)
+			wantP = fmt.Sprintf("%s | %#v | %s", ps, pp, errS(perr))
+		}
+		if got := ref[i*nop+1]; got != want {
+			return nil, report.Failf("wrapper-differs", "ToPostgres(%q, df=%q) returned %q but Parse followed by Render gives %q", in.query, in.df, got, want)
+		}
+		if got := ref[i*nop+2]; got != wantP {
+			return nil, report.Failf("wrapper-differs", "ToParameterizedPostgres(%q, df=%q) returned %q but Parse followed by RenderParam gives %q", in.query, in.df, got, wantP)
+		}
 	}
 	p := &prepared{e, ref}
 	prepCache = map[[2]uint64]*prepared{{seed, uint64(corpus)}: p}
